@@ -23,6 +23,7 @@ import (
 	"encoding/json"
 	"fmt"
 	"hash/fnv"
+	"io"
 	"os"
 	"regexp"
 	"sort"
@@ -846,6 +847,17 @@ func judgeMsg(cs Case) {
 					compare("json/JsonMessage/round-trip/differs", cs, c, chat.Message(back), "JsonMessage field round trip")
 				}
 			}
+			// the same bytes as the last thing of a stream that hands out three bytes per Read and reports io.EOF
+			// together with the last ones (a decompressor, a pipe being closed)
+			var back2 chat.JsonMessage
+			if !guard("json/JsonMessage.ReadFrom/eof-with-last-bytes", cs, func() { _, err = back2.ReadFrom(&eofReader{data: jbuf.Bytes(), max: 3}) }) {
+				ev(1)
+				if err != nil {
+					fail("json/JsonMessage.ReadFrom/error-on-own-output/eof-with-last-bytes/"+errKind(err), cs, "JsonMessage.ReadFrom of its own bytes from a source that ends with (n>0, io.EOF) failed: %v", err)
+				} else {
+					compare("json/JsonMessage/round-trip/differs/eof-with-last-bytes", cs, c, chat.Message(back2), "JsonMessage field round trip (source ending with data+EOF)")
+				}
+			}
 		}
 	}
 	// reference literal
@@ -948,12 +960,50 @@ func judgeMsg(cs Case) {
 			}
 		}
 	}
+	{
+		enc := refNBT(c)
+		var back chat.Message
+		if !guard("nbt/ReadFrom/eof-with-last-bytes", cs, func() { _, err = back.ReadFrom(&eofReader{data: enc, max: 1}) }) {
+			ev(1)
+			if err != nil {
+				fail("nbt/ReadFrom/error-on-reference-encoding/eof-with-last-bytes/"+errKind(err), cs, "Message.ReadFrom(%s) from a one-byte-per-Read source that ends with (1, io.EOF) failed: %v", clipX(enc), err)
+			} else {
+				compare("nbt/ReadFrom/decoded-differs/eof-with-last-bytes", cs, c, back, fmt.Sprintf("decoding the reference encoding %s from a source ending with data+EOF", clipX(enc)))
+			}
+		}
+	}
 	if cs.Part == "comp" {
 		judgeShapes(c, cs)
 		judgeNested(c, cs)
 	}
 	judgeRender(c, cs, m)
 	judgeAfterRender(c, cs, m)
+}
+
+// eofReader hands out at most max bytes per Read and reports io.EOF together with the last ones.
+type eofReader struct {
+	data []byte
+	pos  int
+	max  int
+}
+
+func (e *eofReader) Read(p []byte) (int, error) {
+	if len(p) == 0 {
+		return 0, nil
+	}
+	if e.pos >= len(e.data) {
+		return 0, io.EOF
+	}
+	n := len(p)
+	if n > e.max {
+		n = e.max
+	}
+	n = copy(p[:n], e.data[e.pos:])
+	e.pos += n
+	if e.pos == len(e.data) {
+		return n, io.EOF
+	}
+	return n, nil
 }
 
 func nbtErrKind(err error) string {
